@@ -568,12 +568,14 @@ func verif_lemma_parse_establishes_frame(h *Session, p []byte) {
 	}
 }
 
-// VerifSpecFrameICMP4 / ICMP6: what Parse guarantees for these payload classes.
+// VerifSpecFrameICMP4 / ICMP6: what Parse guarantees for these payload classes. The class follows
+// the IP protocol number only: an IPv6 packet with next header 1 is classed ICMP4 (and an IPv4
+// packet with protocol 58 ICMP6), so nothing is promised about which IP offset is set.
 func VerifSpecFrameICMP4(f Frame) bool {
-	return VerifSpecFrame(f) && f.PayloadID == PayloadICMP4 && f.offsetIP4 == 14 && f.offsetPayload >= 34 && len(f.ether)-f.offsetPayload >= 8
+	return VerifSpecFrame(f) && f.PayloadID == PayloadICMP4 && f.offsetPayload >= 34 && len(f.ether)-f.offsetPayload >= 8
 }
 func VerifSpecFrameICMP6(f Frame) bool {
-	return VerifSpecFrame(f) && f.PayloadID == PayloadICMP6 && f.offsetIP6 == 14 && f.offsetPayload == 54 && len(f.ether)-f.offsetPayload >= 8
+	return VerifSpecFrame(f) && f.PayloadID == PayloadICMP6 && f.offsetPayload >= 34 && len(f.ether)-f.offsetPayload >= 8
 }
 
 //verif:props C08
@@ -601,7 +603,7 @@ func verif_lemma_parse_establishes_icmp(h *Session, p []byte) {
 //verif:props C07 C08
 //verif:timeout 120s
 func verif_contract_Session_icmp6SendPacket(h *Session, srcAddr Addr, dstAddr Addr, b []byte) error {
-	vRequires(VerifSpecSessionOK(h) && len(dstAddr.MAC) == 6 && srcAddr.IP.Is6() && dstAddr.IP.Is6())
+	vRequires(VerifSpecSessionOK(h) && len(dstAddr.MAC) == 6)
 	vRequires(b != nil && 8 <= len(b) && len(b) <= 1400)
 	vCanary()
 	n0 := vWireCount()
@@ -614,7 +616,12 @@ func verif_contract_Session_icmp6SendPacket(h *Session, srcAddr Addr, dstAddr Ad
 	vEnsures(w[6] == h.NICInfo.HostAddr4.MAC[0] && w[7] == h.NICInfo.HostAddr4.MAC[1] && w[8] == h.NICInfo.HostAddr4.MAC[2] &&
 		w[9] == h.NICInfo.HostAddr4.MAC[3] && w[10] == h.NICInfo.HostAddr4.MAC[4] && w[11] == h.NICInfo.HostAddr4.MAC[5])
 	vEnsures(w[0] == dstAddr.MAC[0] && w[1] == dstAddr.MAC[1] && w[2] == dstAddr.MAC[2] && w[3] == dstAddr.MAC[3] && w[4] == dstAddr.MAC[4] && w[5] == dstAddr.MAC[5])
-	vEnsures(spec_ip6_at(w, 22) == srcAddr.IP && spec_ip6_at(w, 38) == dstAddr.IP)
+	if srcAddr.IP.Is6() {
+		vEnsures(spec_ip6_at(w, 22) == srcAddr.IP)
+	}
+	if dstAddr.IP.Is6() {
+		vEnsures(spec_ip6_at(w, 38) == dstAddr.IP)
+	}
 	if dstAddr.IP.IsLinkLocalUnicast() || dstAddr.IP.IsLinkLocalMulticast() {
 		vEnsures(w[21] == 255)
 	} else {
@@ -629,7 +636,7 @@ func verif_contract_Session_icmp6SendPacket(h *Session, srcAddr Addr, dstAddr Ad
 
 //verif:props C07 C08
 func verif_contract_Session_ICMP6SendNeighbourSolicitation(h *Session, srcAddr Addr, dstAddr Addr, targetIP netip.Addr) error {
-	vRequires(VerifSpecSessionOK(h) && len(dstAddr.MAC) == 6 && srcAddr.IP.Is6() && dstAddr.IP.Is6() && targetIP.Is6())
+	vRequires(VerifSpecSessionOK(h) && len(dstAddr.MAC) == 6 && targetIP.Is6())
 	n0 := vWireCount()
 	vModifiesWire()
 	err := h.ICMP6SendNeighbourSolicitation(srcAddr, dstAddr, targetIP)
@@ -650,7 +657,7 @@ func verif_contract_Session_ICMP6SendNeighbourSolicitation(h *Session, srcAddr A
 
 //verif:props C07 C08
 func verif_contract_Session_ICMP6SendNeighborAdvertisement(h *Session, srcAddr Addr, dstAddr Addr, targetAddr Addr) error {
-	vRequires(VerifSpecSessionOK(h) && len(dstAddr.MAC) == 6 && srcAddr.IP.Is6() && dstAddr.IP.Is6() && targetAddr.IP.Is6() && len(targetAddr.MAC) == 6)
+	vRequires(VerifSpecSessionOK(h) && len(dstAddr.MAC) == 6 && targetAddr.IP.Is6() && len(targetAddr.MAC) == 6)
 	n0 := vWireCount()
 	vModifiesWire()
 	err := h.ICMP6SendNeighborAdvertisement(srcAddr, dstAddr, targetAddr)
